@@ -139,13 +139,39 @@ def bounded(tier, seed):
                         for _, a_, _, _ in back:
                             if isinstance(a_, DurativeAction) and not (a_.duration.lower.is_constant() and a_.duration.upper.is_constant()):
                                 sig = "fluent-dependent-duration-interval-empty-in-the-state-of-use"
+                    if sig == "unclassified":
+                        from unified_planning.shortcuts import StartTiming, EndTiming
+                        for _, a_, ps_, _ in back:
+                            if not isinstance(a_, DurativeAction):
+                                continue
+                            subs_ = dict(zip(a_.parameters, ps_))
+                            def fexps(e_):
+                                out_, stack_ = [], [e_]
+                                while stack_:
+                                    x_ = stack_.pop()
+                                    if x_.is_fluent_exp():
+                                        out_.append(x_)
+                                    stack_.extend(x_.args)
+                                return out_
+                            st_f = [e.fluent for t_, el in a_.effects.items() if t_ == StartTiming() for e in el]
+                            later = []
+                            for t_, el in a_.effects.items():
+                                if t_ == EndTiming():
+                                    for e in el:
+                                        later += [e.fluent] + fexps(e.value) + fexps(e.condition)
+                            for iv_, cl in a_.conditions.items():
+                                if iv_.upper == EndTiming():
+                                    for c_ in cl:
+                                        later += fexps(c_)
+                            if any(x != y and x.fluent() == y.fluent() and x.substitute(subs_) == y.substitute(subs_) for x in st_f for y in later):
+                                sig = "start-and-end-effect-on-one-ground-fluent-through-parameter-aliasing"
                     failures.append({"what": f"seed {s}: plan valid for the compiled problem converts back to an invalid temporal plan "
                                              f"({why or r.status.name}) [{sig}]", "concrete": desc, "observed": desc["converted"]})
                 elif len(samples) < 3:
                     samples.append({"problem": pr.name, "compiled_plan": desc["compiled_plan"], "converted": desc["converted"]})
-            if len(failures) >= 5:
-                break
-    return {"evaluations": evals, "distinct_nontrivial": len(nontrivial), "failures": failures[:5],
+            if sum("[unclassified]" in f["what"] or "raised" in f["what"] for f in failures) >= 5 or len(failures) >= 60:
+                break      # classified (known-finding) cases do not stop the exploration
+    return {"evaluations": evals, "distinct_nontrivial": len(nontrivial), "failures": failures[:60],
             "rule": f"{nprob} generated durative problems in the compiler's supported kind, valid compiled plans of length <= {maxlen} "
                     f"(<= {cap} per problem) converted back and validated; non-trivial = distinct valid compiled plan",
             "samples": samples, "bound": f"plans <= {maxlen}"}
